@@ -56,6 +56,8 @@ func deduceMsgType(msg interface{}, typ reflect.Type) MessageType {
 		if gogo.MessageName(gogoMsg) != "" {
 			return MessageTypeGogo
 		}
+		return MessageTypeGoogleV1
 	}
-	return MessageTypeGoogleV1
+	// a pointer to something that is not a message at all
+	return MessageTypeUnknown
 }
